@@ -100,6 +100,7 @@ def runModel (j : Json) : Except String Json := do
   let mut cg := cg0
   let mut c := ctr
   let mut steps : Array Json := #[]
+  let mut wfAll := MontePyVerif.C02.wf cg0.hs && MontePyVerif.C02.chainPads cg0.chain
   for op in ops do
     let k ← (← op.getObjVal? "k").getStr?
     if k == "write" then
@@ -116,6 +117,8 @@ def runModel (j : Json) : Except String Json := do
         let x ← match op.getObjVal? "xp" with
           | .ok g => do pure (parseInputNode (← parseGT g))
           | .error _ => parseExpr (← op.getObjVal? "x")
+        -- hypothesis `Step.ok` of C02_history_wf: the operand is well-formed
+        if !(MontePyVerif.C02.wf x) then wfAll := false
         h ← match k with
           | "and" => pure (h.and x) | "rand" => pure (x.and h) | "or" => pure (h.or x) | "ror" => pure (x.or h)
           | "iand" => pure (h.iand x) | "ior" => pure (h.ior x)
@@ -128,7 +131,7 @@ def runModel (j : Json) : Except String Json := do
   let initReady := match parsed with
     | some _ => Json.bool (MontePyVerif.C02.ready cg0.hs && MontePyVerif.C02.chainOK cg0.chain cg0.hs.fmt)
     | none => Json.null
-  return Json.mkObj [("init", h0.str), ("parse_text", ptext), ("init_ready", initReady), ("steps", Json.arr steps)]
+  return Json.mkObj [("init", h0.str), ("parse_text", ptext), ("init_ready", initReady), ("wf", wfAll), ("steps", Json.arr steps)]
 
 def runDenote (j : Json) : Except String Json := do
   let cs ← textOf (← (← j.getObjVal? "text").getStr?)
